@@ -270,7 +270,7 @@ def run(tier, rep):
         rep.coverage["kernel_section_skipped"] = 1
         rep.coverage["kernel_section_skip_reason"] = err[:300]
     else:
-        kres = sandbox.run("vf.props.kernelsec", "c06_worker", {"tier": tier, "rounds": 4 if tier == "quick" else 12, "connects": 30 if tier == "quick" else 80}, timeout=900, pidns=False)
+        kres = sandbox.run("vf.props.kernelsec", "c06_worker", {"tier": tier, "rounds": 4 if tier == "quick" else 12, "connects": 30 if tier == "quick" else 80}, timeout=900 if tier == "quick" else 5400, pidns=False)
         if kres.get("skip_reason"):
             rep.coverage["kernel_section_skip_reason"] = kres["skip_reason"][:300]
         kres.pop("inconclusive", None) if kres.get("skip_reason") else None
